@@ -109,6 +109,13 @@ class C11(Prop):
             cuts = range(len(sec) + 1) if len(sec) < 120 else sorted(set([0, 1, 2, 3, len(sec) - 1, len(sec)] + [rng.randrange(len(sec)) for _ in range(20)]))
             for c in cuts:
                 ops.append("tlv " + G.spec(sec[:c]))
+        # every section of at most two bytes (all 256 values), and every 3-byte section with a zero length
+        for a in range(256):
+            ops.append("tlv " + C.hexs(bytes([a])))
+            ops.append("tlv " + C.hexs(bytes([a, 0, 0])))
+            for b in (0, 1, 2, 3, 0x7F, 0x80, 0xFF):
+                ops.append("tlv " + C.hexs(bytes([a, b])))
+                ops.append("tlv " + C.hexs(bytes([a, 0, b]) + bytes(b)))
         # boundary lengths
         for sec in G.tlv_boundary_sections(rng):
             ops.append("tlv " + G.spec(sec))
